@@ -10,7 +10,8 @@
 // (ForkchoiceUpdated -> GetPayload) or miner.BuildPayload -> ResolveFull with random payload
 // attributes. Every payload must convert to a block whose hash matches, must import on a second,
 // independent BlockChain with the same genesis, and NewPayload on the building node must answer
-// VALID.
+// VALID. A second family of nodes (boundary.go) has rule sets / blob schedules that activate
+// inside the generated chain, with payloads straddling every activation and blob pressure.
 package main
 
 import (
@@ -54,9 +55,9 @@ var forks = []string{"Cancun", "Prague", "Osaka", "Amsterdam"}
 var nRegular, nBoundary int // case indices below nRegular: one rule set per node; above: fork-boundary family
 
 func run(r *vrt.Run) {
-	r.Rule("case = node of one rule set (Cancun/Prague/Osaka/Amsterdam) with 6 generated contracts + probe/transient-storage/log/burner/deposit contracts, 1-5 consecutive payloads; before each payload the pools receive 15-90 random transactions of 20 kinds (see package comment) and random payload attributes (timestamp delta, prevrandao, fee recipient, 0-16 withdrawals, beacon root, slot number); built via engine API or miner.BuildPayload; one evaluation per payload; signature = (fork, build path, empty/full, transaction kinds included, skipped classes, which limit stopped filling, withdrawals bucket)")
+	r.Rule("case = node of one rule set (Cancun/Prague/Osaka/Amsterdam) with 6 generated contracts + probe/transient-storage/log/burner/deposit contracts, 1-5 consecutive payloads; before each payload the pools receive 15-90 random transactions of 20 kinds (see package comment) and random payload attributes (timestamp delta, prevrandao, fee recipient, 0-16 withdrawals, beacon root, slot number); built via engine API or miner.BuildPayload; one evaluation per payload; signature = (fork, build path, empty/full, transaction kinds included, skipped classes, which limit stopped filling, withdrawals bucket). Fork-boundary family (boundary.go): node whose configuration activates 1-3 of Prague / Osaka / BPO1 / BPO2 / Amsterdam(+BPO3) with default or random blob schedules at timestamps inside the chain, 3-5 payloads with timestamps fixed just before, at/after and after every activation, genesis excessBlobGas / blobGasUsed / base fee varied around the blob targets, ~1/3 blob transactions; there the fork part of the signature is (rule set or transition parent>child, last-before / second-after position, and for the first block of a new blob schedule whether parent excess+used reaches the old target and whether excess / blob fee differ between the two schedules)")
 	nCases := r.N(24, 1200)
-	nBoundary = r.N(14, 400) // fork-boundary family (boundary.go): cases nCases .. nCases+nBoundary-1
+	nBoundary = r.N(12, 400) // fork-boundary family (boundary.go): cases nCases .. nCases+nBoundary-1
 	if r.Race() {
 		nCases = r.N(3, 60)
 		nBoundary = 0 // value-level family; the race variant samples the regular workload only
@@ -65,6 +66,13 @@ func run(r *vrt.Run) {
 		blockGasLimit = 6_000_000
 	}
 	nRegular = nCases
+	if os.Getenv("C36_DEBUG") == "plans" { // development aid: print the fork-boundary plans only
+		for j := 0; j < nBoundary; j++ {
+			_, plan, _ := planBoundary(r.Rand("boundary", j), j)
+			fmt.Printf("case %d: %s\n", nRegular+j, plan.desc)
+		}
+		return
+	}
 	blobs() // KZG material once
 	if v := os.Getenv("VERIF_ONLY"); v != "" {
 		i, _ := strconv.Atoi(v)
@@ -74,7 +82,12 @@ func run(r *vrt.Run) {
 		if r.Race() {
 			workers = 3
 		}
-		vrt.Par(nCases+nBoundary, workers, func(i int) { runCase(r, i) })
+		onlyBoundary := os.Getenv("C36_FAMILY") == "boundary" // development aid: skip the regular cases (coverage obligations then fail)
+		vrt.Par(nCases+nBoundary, workers, func(i int) {
+			if i >= nRegular || !onlyBoundary {
+				runCase(r, i)
+			}
+		})
 		if r.Race() {
 			// the race variant is a small sample of the same workload (coverage obligations are
 			// carried by the default variant; under the race detector the engine API often
